@@ -428,15 +428,16 @@ Proof.
 Qed.
 
 (* ------------------------------------------------------------------ RealVisitor *)
-Lemma real_add_loop_TT : forall vis l b,
-  real_add_loop vis l b = QT TT -> b = TT /\ Forall (fun a => vis a = QT TT) l.
+Lemma real_add_loop_TT : forall vis l b nr,
+  real_add_loop vis l b nr = QT TT -> b = TT /\ Forall (fun a => vis a = QT TT) l.
 Proof.
-  intros vis. induction l as [|a r IH]; intros b H; cbn [real_add_loop] in H.
+  intros vis. induction l as [|a r IH]; intros b nr H; cbn [real_add_loop] in H.
   - injection H as ->. split; [reflexivity | constructor].
   - destruct (vis a) as [t| | |] eqn:E; try discriminate H. cbn [qbind] in H.
+    destruct (t_false t && _); [discriminate H|].
     destruct (t_indet (andwk_tribool b t)) eqn:I.
     + injection H as H. rewrite H in I. discriminate I.
-    + destruct (IH _ H) as [B F]. destruct b; destruct t; try discriminate B. split; [reflexivity|].
+    + destruct (IH _ _ H) as [B F]. destruct b; destruct t; try discriminate B. split; [reflexivity|].
       constructor; [exact E | exact F].
 Qed.
 
@@ -519,7 +520,7 @@ Proof.
   - cbn in D. discriminate D.
   - cbn in D. discriminate D.
   - (* Add *)
-    destruct (real_add_loop_TT _ _ _ H) as [_ ALL]. rewrite Forall_forall in ALL.
+    destruct (real_add_loop_TT _ _ _ _ H) as [_ ALL]. rewrite Forall_forall in ALL.
     destruct (add_args_closed qi_real qi_real_eq qi_real_add qi_real_zero rho coef d v K D) as (z & -> & Pz).
     + intros a az Ha Da. apply vfin_denote in Da.
       apply (IH a (VC az) (keys_ok_add_arg coef d K a Ha) (ALL a Ha) Da). discriminate.
